@@ -27,6 +27,7 @@ class Obligation:
     nontrivial: bool = True
     required: bool = True  # belongs to the hand-confirmed instance floor
     sample: Any = None
+    inherited: str = ""  # thorough tier: the property whose rule this is (trusted base of the property being checked)
 
     @property
     def key(self) -> str:
@@ -76,10 +77,15 @@ def load_known() -> list[dict]:
 
 def finish(rep: Report, seed: int = 0) -> int:
     """Print the per-obligation lines, write evidence, return the exit code."""
-    known = [k for k in load_known() if k.get("property") == rep.property_id and k.get("status") == "known"]
+    all_known = [k for k in load_known() if k.get("status") == "known"]
+    known = [k for k in all_known if k.get("property") == rep.property_id]
     known_keys = {f"{k['rule']}@{k['construct']}": k for k in known}
+    dep_known_keys: dict = {}
+    for k in all_known:
+        dep_known_keys.setdefault(f"{k['rule']}@{k['construct']}", []).append(k)
     violations = []
     known_hit = []
+    dep_known = []
     unknown_required = []
     seen_keys = set()
     for ob in rep.obligations:
@@ -91,6 +97,10 @@ def finish(rep: Report, seed: int = 0) -> int:
         if ob.verdict == REFUTED:
             if ob.key in known_keys:
                 known_hit.append((ob, known_keys[ob.key]))
+            elif getattr(ob, "inherited", None) and ob.key in dep_known_keys:
+                # a recorded finding of the property this one rests on: reported by that property's own check
+                ks = dep_known_keys[ob.key]
+                dep_known.append((ob, next((k for k in ks if k.get("property") == ob.inherited), ks[0])))
             else:
                 violations.append(ob)
         elif ob.verdict == UNKNOWN and ob.required:
@@ -104,6 +114,8 @@ def finish(rep: Report, seed: int = 0) -> int:
             rep.error(f"rule {rule}: {per_rule.get(rule, 0)} obligations < floor {floor} (rule matches fewer sites than confirmed by hand)")
     for ob, k in known_hit:
         print(f"KNOWN-FINDING: property={rep.property_id} {ob.rule} {ob.construct}: {k.get('what', ob.detail)}")
+    for ob, k in dep_known:
+        print(f"DEPENDENCY-KNOWN-FINDING: property={k.get('property')} (trusted base of {rep.property_id}) {ob.rule} {ob.construct}")
     wall = time.time() - rep.t0
     n_ob = len(rep.obligations)
     n_proven = sum(1 for o in rep.obligations if o.verdict == PROVEN)
@@ -127,9 +139,10 @@ def finish(rep: Report, seed: int = 0) -> int:
         "checker_cmd": f"/venv/bin/python /verif/yv/check.py {rep.property_id} --tier {rep.tier}",
         "trusted_base": rep.trusted_base,
         "exhaustive": False,
-        "refuted": len(violations) + len(known_hit),
+        "refuted": len(violations) + len(known_hit) + len(dep_known),
         "unknown": sum(1 for o in rep.obligations if o.verdict == UNKNOWN),
         "known_findings_matched": [o.key for o, _ in known_hit],
+        "refuted_keys": sorted({o.key for o in rep.obligations if o.verdict == REFUTED}),
         "per_rule": per_rule,
         "instance_floor": rep.floors,
     }
@@ -168,6 +181,6 @@ def finish(rep: Report, seed: int = 0) -> int:
             code = 2
     print(
         f"SUMMARY property={rep.property_id} tier={rep.tier} obligations={n_ob} proven={n_proven} "
-        f"refuted={len(violations) + len(known_hit)} known={len(known_hit)} unknown={coverage['unknown']} wall={wall:.2f}s exit={code}"
+        f"refuted={len(violations) + len(known_hit)} known={len(known_hit)} dependency_known={len(dep_known)} unknown={coverage['unknown']} wall={wall:.2f}s exit={code}"
     )
     return code
